@@ -575,6 +575,29 @@ theorem rejects_missing_enumerator (P : ProgCtx) (Γ : Env) (ln : Ln) (s : Expr)
   exact ⟨by rw [exhaustiveM_fst]; exact hex,
     P.plug_error Γ _ _ hreach (tc_match_missing Γ ln s g gs cs en arms hs hen hg hsame hex)⟩
 
+/-- a main unit without any function (declarations only, or nothing) is refused, at line 1
+(bad4904: `main_check_type` used to walk the NULL list) -/
+theorem rejects_empty_main_unit (ds : List Decl) (Γ : Env) (hd : globalEnv ds = .ok Γ) :
+    check ⟨ds, .nil⟩ = .error ⟨1, .emptyMainUnit⟩ := by
+  simp [check, hd, nonEmptyUnit]
+
+/-- a top-level function item without a name is refused at its line (0b116cb: the NULL name
+used to be hashed); `fpre` are the functions declared before it -/
+theorem rejects_nameless_function (ds : List Decl) (Γ Γ1 : Env) (fpre fpost : FuncList) (ss : List Sig)
+    (f : Func) (hd : globalEnv ds = .ok Γ) (hpre : declFuncs Γ fpre = .ok (Γ1, ss)) (hn : f.name = "") :
+    check ⟨ds, fpre.app (.cons f fpost)⟩ = .error ⟨f.ln, .funcNoName⟩ := by
+  rw [check_eq]
+  simp [hd, nonEmptyUnit_app, declFuncs_app_noname Γ Γ1 fpre ss f fpost hpre hn]
+
+/-- … and so is one that is an item of a block, in any context (a function LITERAL,
+`let func (…) -> …`, has no name and needs none) -/
+theorem rejects_nameless_function_item (P : ProgCtx) (Γ Γ1 Γ2 : Env) (ln : Ln) (pre post : SeqList)
+    (fpre fpost : FuncList) (ss : List Sig) (f : Func) (hreach : P.holeEnv = .ok Γ)
+    (hpre : seqEnv Γ.push pre = .ok Γ1) (hf : declFuncs Γ1 fpre = .ok (Γ2, ss)) (hn : f.name = "") :
+    check (P.plug (.seq ln (pre.app (.cons (.funcs (fpre.app (.cons f fpost))) post))))
+      = .error ⟨f.ln, .funcNoName⟩ :=
+  P.plug_error Γ _ _ hreach (tc_seq_noname Γ Γ1 Γ2 ln pre post fpre fpost ss f hpre hf hn)
+
 /-! ### known acceptances of the tree (corpus/tc_known), visible as theorems: the model, which
 mirrors the code, ACCEPTS each of these programs that break a static rule -/
 
@@ -720,5 +743,23 @@ example : (exhaustiveM exΓ "E" (.cons (.item 14 "E" "A" exOne) .nil)
     check (exP.plug (.match_ 13 (.id 13 "e") (.cons (.item 14 "E" "A" exOne) .nil))) = .error ⟨13, .matchMissing⟩ :=
   rejects_missing_enumerator exP exΓ 13 _ _ _ ⟨.val (.enum "E"), .const⟩ "E" [⟨.val .int, .temp⟩] "B" _ _
     exP_reaches rfl rfl rfl rfl rfl (by decide) rfl
+
+-- `record P { x : int; }` alone; `func main() …` then `func () -> int { 0 }`; a nameless item in a block at the hole
+example : check ⟨exDecls, .nil⟩ = .error ⟨1, .emptyMainUnit⟩ :=
+  rejects_empty_main_unit exDecls (match globalEnv exDecls with | .ok Γ => Γ | .error _ => default) rfl
+example : check ⟨exDecls, FuncList.app (.cons (.mk 3 "main" [] .dflt .int (exSeq1 exOne) .nil) .nil)
+      (.cons (.mk 4 "" [] .dflt .int (exSeq1 exOne) .nil) .nil)⟩ = .error ⟨4, .funcNoName⟩ :=
+  rejects_nameless_function exDecls (match globalEnv exDecls with | .ok Γ => Γ | .error _ => default)
+    (match globalEnv exDecls with
+      | .ok Γ => (match declFuncs Γ (.cons (.mk 3 "main" [] .dflt .int (exSeq1 exOne) .nil) .nil) with
+                  | .ok q => q.1 | .error _ => default)
+      | .error _ => default)
+    _ _ [⟨[], .const, .int⟩] (.mk 4 "" [] .dflt .int (exSeq1 exOne) .nil) rfl rfl rfl
+example : check (exP.plug (.seq 13 (SeqList.app .nil (.cons (.funcs (FuncList.app .nil
+      (.cons (.mk 14 "" [] .dflt .int (exSeq1 exOne) .nil) .nil))) (.cons (.expr exOne) .nil)))))
+    = .error ⟨14, .funcNoName⟩ :=
+  rejects_nameless_function_item exP exΓ exΓ.push exΓ.push 13 .nil _ .nil .nil [] _ exP_reaches rfl rfl rfl
+-- … while the literal `let func () -> int { 1 }` is fine
+example : check (exP.plug (.call 13 (.funcLit (.mk 13 "" [] .dflt .int (exSeq1 exOne) .nil)) .nil)) = .ok () := rfl
 
 end Never.C06
